@@ -186,6 +186,30 @@ Proof.
 Qed.
 Print Assumptions C05_cleaner_is_source_table.
 
+(* ... and so are one_space_line's five methods (the real buffer of the model) and
+   the guarded steps of c_file_source's loop over physical lines (for every algebra):
+   each hand-written definition of the model equals the interpretation of the program /
+   table the translator extracts from the current source of that method / loop. *)
+Theorem C05_buffer_is_source_table :
+  forall (b o : osl) (c : ascii),
+    c_char c b = bs_self (brun prog_append_char (bstart b c o)) /\
+    c_space b = bs_self (brun prog_append_space (bstart b c o)) /\
+    c_nonspace c b = bs_self (brun prog_append_nonspace (bstart b c o)) /\
+    c_join b o = bs_self (brun prog_join (bstart b c o)) /\
+    c_cat b = bs_res (brun prog_category (bstart b c o)).
+Proof.
+  intros b o c.
+  exact (conj (append_char_is_source c b o) (conj (append_space_is_source b c o)
+        (conj (append_nonspace_is_source c b o) (conj (join_is_source b o c) (category_is_source b c o))))).
+Qed.
+Print Assumptions C05_buffer_is_source_table.
+
+Theorem C05_loop_is_source_table :
+  forall (C B : Type) (A : alg C B) (f : fs B) (n : nat) (body : list C) (continued : bool) (b0 : B),
+    snd (lrun A loop_table n body continued b0 f) = phys_line A f n (body, continued).
+Proof. intros. apply phys_line_is_source. Qed.
+Print Assumptions C05_loop_is_source_table.
+
 (* The two known classes are real: without the guards the statement is false of
    the faithful model (well-formed witnesses). *)
 Theorem C05_refuted_slash_before_splice :
